@@ -308,7 +308,8 @@ def run(ctx: Ctx) -> int:
 		r2 = list(ex.map(_check_stmt_batch, [(stmts[i:i + 60], i) for i in range(0, len(stmts), 60)]))
 		binary = [c for c in cases if c['ast']['k'] in ('bin', 'cmp', 'bool')][:400 if quick else 2000]
 		r4 = list(ex.map(_check_wrapped, [(binary[i:i + 40], i) for i in range(0, len(binary), 40)]))
-		modules = ['example.json', 'rogw.tranp.compatible.libralies.classes'] if quick else ['example.json', 'example.FW.string', 'rogw.tranp.compatible.libralies.classes', 'rogw.tranp.compatible.libralies.type', 'tests.unit.rogw.tranp.implements.cpp.transpiler.fixtures.fixture_py2cpp', 'tests.unit.rogw.tranp.semantics.fixtures.fixture_reflections', 'rogw.tranp.lang.di', 'rogw.tranp.errors']
+		from harness import real_modules
+		modules = real_modules.QUICK if quick else real_modules.LOAD_OK
 		r3 = list(ex.map(_real_module, modules))
 	failures = [f for r in r1 + r2 + r3 + r4 for f in r['failures']]
 	# the harness's MarkRange is the specification's (table evaluated by TLC)
